@@ -23,3 +23,11 @@ void h_page_clear(void) {
   build(); g_pused0 = vc_nondet_size("g_pused0"); g_sc0 = vc_nondet_u32("g_sc0"); g_so0 = vc_nondet_u32("g_so0"); g_tag0 = vc_nondet_u8("g_tag0"); g_co_n = 0;
   mi_segments_tld_t* tld; mi_slice_t* r = mi_segment_page_clear(g_ppage, tld); VC_REACH();
 }
+void h_segment_free(void) {
+  build();
+  g_sosf_n = 0; g_srm_n = 0;
+  /* segment well-formed: every slice entry that can be a span head carries a positive count that stays inside the table (assumed for ALL entries here: the
+     walk may land on any of them) */
+  for (size_t i = 0; i < MI_SLICES_PER_SEGMENT; i++) { __CPROVER_assume(g_pseg->slices[i].slice_count >= 1 && i + g_pseg->slices[i].slice_count <= g_pseg->slice_entries + (i >= g_pseg->slice_entries ? MI_SLICES_PER_SEGMENT : 0)); }
+  mi_segments_tld_t* tld; mi_segment_free(g_pseg, vc_nondet_bool("force"), tld); VC_REACH();
+}
